@@ -158,6 +158,11 @@ def gen_history(rng, hid, confirm=False):
                 # (with rows to write the first three file calls of a multi-file append belong to its first part file; an append of
                 # no rows goes straight to the summary files, whose rewrite is outside the property)
                 b["failed_first"] = {"mode": "io", "k": rng.choice([1, 2, 3])}
+    if scheme == "simple" and h.get("handle_from") is not None and rng.random() < 0.6:
+        # while the long-lived handle stays alive, ANOTHER code path rewrites the footer of the file (update_file_custom_metadata on the
+        # PATH removes a key the first write stored: the footer gets shorter and moves); the handle's next append must still leave every
+        # existing row group's bytes alone
+        h["kv_rewrite_step"] = rng.randrange(h["handle_from"], nb)
     if scheme != "simple" and not confirm and h.get("handle_from") is None and rng.random() < 0.2:
         # the append target has NO summary file (datasets of other tools, e.g. dask's default; summary files lost while copying): before
         # one of the appends _metadata (and / or _common_metadata) is deleted; such a directory is a legal dataset (opened by listing)
@@ -246,6 +251,8 @@ def write_kw(h, i):
         kw["write_index"] = True
     if "has_nulls" in h:
         kw["has_nulls"] = h["has_nulls"]
+    if h.get("kv_rewrite_step") is not None and i == 0:
+        kw["custom_metadata"] = {"verif_pad": "x" * 300, "verif_keep": "1"}
     oe = {c["name"]: OBJENC_KINDS[c["kind"]] for c in h["cols"] if c["kind"] in OBJENC_KINDS}
     if oe:
         kw["object_encoding"] = dict({c["name"]: "infer" for c in h["cols"]}, **oe)
@@ -609,6 +616,12 @@ def run_history(arg):
             else:
                 if len(a_df) == 0 and sorted(c for c, _ in a_cells) != sorted(c for c, _ in expected):
                     a_cells = [[c, []] for c, _ in expected]       # an empty batch contributes no rows, whatever its alone-read looks like
+                if simple and h.get("kv_rewrite_step") == i:
+                    from fastparquet.writer import update_file_custom_metadata
+                    if handle is None and h.get("handle_from") is not None and i >= h["handle_from"]:
+                        handle = ParquetFile(target)          # the handle is older than the rewrite
+                    update_file_custom_metadata(target, {"verif_pad": None})
+                    st["kv_rewrite"] = True
                 if simple:
                     before = open(target, "rb").read()
                     pf_b = ParquetFile(target)
@@ -645,6 +658,7 @@ def run_history(arg):
                         akw.pop("write_index", None)
                         akw.pop("object_encoding", None)        # the stored schema decides on append
                         akw.pop("has_nulls", None)
+                        akw.pop("custom_metadata", None)
                         if use_handle:
                             if handle is None:
                                 handle = ParquetFile(target)      # opened once; every later append and read-in-between uses it
@@ -943,7 +957,9 @@ def run(ctx):
                     meta.append(("rel", short, st))
                     cmds.append(("append_seq", st["before"], st["chunks"]))
                     meta.append(("seq", short, st))
-                    if h.get("foreign"):
+                    if st.get("kv_rewrite"):
+                        ctx.count("footer_rewritten_by_another_code_path_before_a_handle_append", 1)
+                    if h.get("foreign") or any(s_.get("kv_rewrite") for s_ in res["steps"][:i + 1]):
                         # another writer's footer may hold fields fastparquet does not write back (C07_simple_shorter_tail_refuted): the
                         # hypothesis is about footers fastparquet serialised itself; the relation check above and the oracle still apply
                         ctx.count("foreign_footer", "shorter" if st["footer_len"][1] < st["footer_len"][0] else "not shorter")
